@@ -154,13 +154,21 @@ theorem emittedDeserialize_nobase (hwf : WF S = true) (hwgd : WFGD S = true) {na
     · exact hQ.sim.loc x h v hv
   rw [hsets]
 
-/-- a concrete class with a base class: `Base._deserialize`, the window it returns, then the class's own members in a
-    fresh scope -/
-theorem emittedDeserialize_base (hwf : WF S = true) (hwgd : WFGD S = true) {name : String} {d : StructDef}
-    (hfind : S.find name = some (.struct d)) {a : String} (hbase : d.base = some a)
-    (hnn : ∀ ty b v, r.dec ty b = .ok v → v ≠ .none) {ty : String} {payload : Bytes} {v : Val}
-    (hdec : decConcrete S T r ty d payload = .ok v) :
-    emittedDeserialize S T r ty d payload = .ok v := by
+/-- a class `d` with base class `da`: what well-formedness gives -/
+structure BaseCtx (S : Schema) (d : StructDef) (a : String) (da : StructDef) : Prop where
+  hfa : S.find a = some (.struct da)
+  hwa : WfStruct S a da
+  hbn : da.base = none
+  huncond : ∀ f ∈ da.fields, f.cond = none
+  hgda : DesFieldsOk S da
+  hsplit : d.fields = da.fields ++ ownFields d
+  hownA : ownFields da = da.fields
+  hlen : da.fields.length ≤ d.inherited
+  htake : d.fields.take d.inherited = da.fields
+  hvis : ∀ f ∈ ownFields d, ∀ n ∈ refsOf f, ∀ x ∈ da.fields, x.name ≠ n
+
+theorem baseCtx_of (hwf : WF S = true) (hwgd : WFGD S = true) {name : String} {d : StructDef}
+    (hfind : S.find name = some (.struct d)) {a : String} (hbase : d.base = some a) : ∃ da, BaseCtx S d a da := by
   have hw := wfStruct_iff (WF_struct hwf hfind)
   have hgs := WFGD_struct hwgd hfind
   have hgd := desFieldsOk_of hgs
@@ -189,22 +197,22 @@ theorem emittedDeserialize_base (hwf : WF S = true) (hwgd : WFGD S = true) {name
       exact List.mem_map.mpr ⟨x, hx, hxn⟩
     rw [h2] at h3
     cases h3
-  -- the decoder: base members, then own members
-  unfold decConcrete at hdec
-  obtain ⟨st, hst, hdec⟩ := bind_eq_ok.mp hdec
-  obtain ⟨vs, hvs, hdec⟩ := bind_eq_ok.mp hdec
-  simp only [Except.ok.injEq] at hdec
-  subst hdec
-  unfold decFields at hst
-  have hst' : decFrom S T r d (da.fields ++ ownFields d) 0 { buf := payload, origLen := payload.length } = .ok st := by
-    rw [← hsplit]; exact hst
-  rw [decFrom_append] at hst'
-  obtain ⟨st1, hst1, hst2⟩ := bind_eq_ok.mp hst'
-  simp only [Nat.zero_add] at hst2
-  have hst1' : decFrom S T r da da.fields 0 { buf := payload, origLen := payload.length } = .ok st1 := by
-    rw [← decFrom_congr d da da.fields 0 _ (fun i st' _ hi => by
-      rw [rebase_before d st' (by omega), rebase_no_base da hbn])]
-    exact hst1
+  exact ⟨da, hfa, hwa, hbn, huncond, hgda, hsplit, hownA, hlen, htake, hvis⟩
+
+/-- the run of `Base._deserialize` when the decoder reads the members of the abstract class `da`: the locals, the size
+    local, and where the rest of the buffer lies -/
+theorem base_run {a : String} {da : StructDef} (hwa : WfStruct S a da) (hbn : da.base = none)
+    (huncond : ∀ f ∈ da.fields, f.cond = none) (hgda : DesFieldsOk S da) (hownA : ownFields da = da.fields)
+    (hnn : ∀ ty b v, r.dec ty b = .ok v → v ≠ .none) {payload : Bytes} {st1 : DecState}
+    (hst1' : decFrom S T r da da.fields 0 { buf := payload, origLen := payload.length } = .ok st1) :
+    ∃ (σ1 : PyState) (e : Nat),
+      execItems S T r (emitDeserialize S da)
+        (if (ownSizeMember da).isSome then ({ buffer := payload } : PyState)
+          else ({ buffer := payload } : PyState).set "size_" (.int (payload.length : Int))) = .ok σ1 ∧
+      Sim σ1 st1 [] da.fields ∧ σ1.getInt (sizeLocal da) = .ok (e : Int) ∧ st1.buf <:+ payload.take e ∧
+      (st1.sizeVal = some e ∨ (st1.sizeVal = none ∧ e = payload.length)) ∧ st1.origLen = payload.length ∧
+      st1.queued = [] := by
+  have hrebA : ∀ st i, rebase da st i = st := fun st i => rebase_no_base da hbn st i
   -- the run of `Base._deserialize`
   have hitemsA : emitDeserialize S da =
       da.fields.map (fun f => DesItem.field (desFieldAst S da (sizeMemberOf da) f none)) := by
@@ -230,7 +238,7 @@ theorem emittedDeserialize_base (hwf : WF S = true) (hwgd : WFGD S = true) {name
         (if (ownSizeMember da).isSome then ({ buffer := payload } : PyState)
           else ({ buffer := payload } : PyState).set "size_" (.int (payload.length : Int))) = .ok σ1 ∧
       Sim σ1 st1 [] da.fields ∧ σ1.getInt (sizeLocal da) = .ok (e : Int) ∧ st1.buf <:+ payload.take e ∧
-      (rebase d st1 d.inherited).buf = st1.buf.drop (e - payload.length) := by
+      (st1.sizeVal = some e ∨ (st1.sizeVal = none ∧ e = payload.length)) := by
     rcases hcase with ⟨f0, w, rest, hfs, hk0, hsv, hsuf, henv⟩ | ⟨hns, hsv, hsuf⟩
     · have hf0 : f0 ∈ da.fields := by rw [hfs]; simp
       have hown0 : ownSizeMember da = some f0 := by
@@ -247,8 +255,7 @@ theorem emittedDeserialize_base (hwf : WF S = true) (hwgd : WFGD S = true) {name
         rw [hloc0]
         unfold PyState.getInt
         rw [this, Int.toNat_of_nonneg h0]
-      · unfold rebase
-        simp [hbase, hsv, hol]
+      · exact Or.inl hsv
     · have hnosize : ownSizeMember da = none := by
         unfold ownSizeMember
         rw [hownA, List.find?_eq_none]
@@ -271,11 +278,63 @@ theorem emittedDeserialize_base (hwf : WF S = true) (hwgd : WFGD S = true) {name
         unfold PyState.getInt
         rw [hfr _ hfresh, PyState.get_set]
         simp
-      · unfold rebase
-        simp [hsv]
-  obtain ⟨σ1, e, hex1, hS1, hsz, hsuf, hreb1⟩ := hwin
+      · exact Or.inr ⟨hsv, rfl⟩
+  obtain ⟨σ1, e, hex1, hS1, hsz, hsuf, hsv⟩ := hwin
+  exact ⟨σ1, e, hex1, hS1, hsz, hsuf, hsv, hol, hq1⟩
+
+/-- … and the window it returns is the decoder's buffer at the boundary between inherited and own members -/
+theorem base_part {d : StructDef} {a : String} {da : StructDef} (hc : BaseCtx S d a da) (hwgd : WFGD S = true)
+    (hbase : d.base = some a) (hnn : ∀ ty b v, r.dec ty b = .ok v → v ≠ .none) {payload : Bytes} {st1 : DecState}
+    (hst1' : decFrom S T r da da.fields 0 { buf := payload, origLen := payload.length } = .ok st1) :
+    ∃ (σ1 : PyState) (e : Nat),
+      execItems S T r (emitDeserialize S da)
+        (if (ownSizeMember da).isSome then ({ buffer := payload } : PyState)
+          else ({ buffer := payload } : PyState).set "size_" (.int (payload.length : Int))) = .ok σ1 ∧
+      Sim σ1 st1 [] da.fields ∧ σ1.getInt (sizeLocal da) = .ok (e : Int) ∧
+      pySlice payload ((e : Int) - (σ1.buffer.length : Int)) (e : Int) = (rebase d st1 d.inherited).buf ∧
+      st1.queued = [] := by
+  obtain ⟨hfa, hwa, hbn, huncond, hgda, hsplit, hownA, hlen, htake, hvis⟩ := hc
+  obtain ⟨σ1, e, hex1, hS1, hsz, hsuf, hsv, hol, hq1⟩ := base_run hwa hbn huncond hgda hownA hnn hst1'
+  have hreb1 : (rebase d st1 d.inherited).buf = st1.buf.drop (e - payload.length) := by
+    rcases hsv with hsv | ⟨hsv, he⟩
+    · unfold rebase
+      simp [hbase, hsv, hol]
+    · unfold rebase
+      simp [hsv, he]
   have hwindow : pySlice payload ((e : Int) - (σ1.buffer.length : Int)) (e : Int) = (rebase d st1 d.inherited).buf := by
     rw [hS1.buf, window_slice payload e st1.buf hsuf, hreb1]
+  exact ⟨σ1, e, hex1, hS1, hsz, hwindow, hq1⟩
+
+/-- a concrete class with a base class: `Base._deserialize`, the window it returns, then the class's own members in a
+    fresh scope -/
+theorem emittedDeserialize_base (hwf : WF S = true) (hwgd : WFGD S = true) {name : String} {d : StructDef}
+    (hfind : S.find name = some (.struct d)) {a : String} (hbase : d.base = some a)
+    (hnn : ∀ ty b v, r.dec ty b = .ok v → v ≠ .none) {ty : String} {payload : Bytes} {v : Val}
+    (hdec : decConcrete S T r ty d payload = .ok v) :
+    emittedDeserialize S T r ty d payload = .ok v := by
+  have hw := wfStruct_iff (WF_struct hwf hfind)
+  have hgs := WFGD_struct hwgd hfind
+  have hgd := desFieldsOk_of hgs
+  obtain ⟨da, hctx⟩ := baseCtx_of hwf hwgd hfind hbase
+  obtain ⟨hfa, hwa, hbn, huncond, hgda, hsplit, hownA, hlen, htake, hvis⟩ := hctx
+  have hctx : BaseCtx S d a da := ⟨hfa, hwa, hbn, huncond, hgda, hsplit, hownA, hlen, htake, hvis⟩
+  -- the decoder: base members, then own members
+  unfold decConcrete at hdec
+  obtain ⟨st, hst, hdec⟩ := bind_eq_ok.mp hdec
+  obtain ⟨vs, hvs, hdec⟩ := bind_eq_ok.mp hdec
+  simp only [Except.ok.injEq] at hdec
+  subst hdec
+  unfold decFields at hst
+  have hst' : decFrom S T r d (da.fields ++ ownFields d) 0 { buf := payload, origLen := payload.length } = .ok st := by
+    rw [← hsplit]; exact hst
+  rw [decFrom_append] at hst'
+  obtain ⟨st1, hst1, hst2⟩ := bind_eq_ok.mp hst'
+  simp only [Nat.zero_add] at hst2
+  have hst1' : decFrom S T r da da.fields 0 { buf := payload, origLen := payload.length } = .ok st1 := by
+    rw [← decFrom_congr d da da.fields 0 _ (fun i st' _ hi => by
+      rw [rebase_before d st' (by omega), rebase_no_base da hbn])]
+    exact hst1
+  obtain ⟨σ1, e, hex1, hS1, hsz, hwindow, hq1⟩ := base_part hctx hwgd hbase hnn hst1'
   -- the members set on the instance by the base class
   unfold objectOf at hvs
   rw [hsplit, List.filter_append, List.mapM_append] at hvs
